@@ -229,7 +229,7 @@ def make_l2_hook(invs: List[Tuple[str, str, str, str]], rename: Dict[str, str]):
 
 
 # ----------------------------------------------------------------------------
-def loopfree_paths_equal(fa: FuncInfo, fb: FuncInfo, rename_b: Dict[str, str], adapters) -> Optional[Tuple[bool, int]]:
+def loopfree_paths_equal(fa: FuncInfo, fb: FuncInfo, rename_b: Dict[str, str], adapters, repo=None) -> Optional[Tuple[bool, int]]:
     """Two routines without loops, compared as functions from decisions to results: every path of each is executed
     symbolically; whenever a path of one and a path of the other can be taken together (their conditions do not
     contradict each other) they must return the same canonical value and perform the same stores.  For every input the
@@ -238,6 +238,8 @@ def loopfree_paths_equal(fa: FuncInfo, fb: FuncInfo, rename_b: Dict[str, str], a
     for f in (fa, fb):
         if any(isinstance(n, (ast.While, ast.For, ast.Try, ast.With, ast.Yield)) for n in ast.walk(f.node)):
             return None
+    if not adapters or not any(isinstance(c, ast.Call) and isinstance(c.func, ast.Name) and c.func.id in adapters for c in ast.walk(fa.node)):
+        fb = _align_nested_selectors(fa, fb, repo)
     from .rules_classes import MethodPaths
     try:
         ra = MethodPaths(fa, call_adapters=adapters).run().results
@@ -272,6 +274,49 @@ def loopfree_paths_equal(fa: FuncInfo, fb: FuncInfo, rename_b: Dict[str, str], a
             if va2 != vb2 or sa != sb:
                 return False, pairs
     return (pairs > 0), pairs
+
+
+def _align_nested_selectors(fa: FuncInfo, fb: FuncInfo, repo=None) -> FuncInfo:
+    """Helpers are called by name.  When each of the two routines calls exactly one three-argument selector helper (a
+    nested definition or a function of its own module) and the two compute the same selection - decided on the 13 weak
+    orderings of their arguments - the helper of `fb` takes the name of its counterpart (in a copy): a renamed helper
+    is the same helper."""
+    import copy
+    import dataclasses
+    from .rules_coincidence import _weak_orderings, eval_interpolate
+
+    def selectors(f: FuncInfo):
+        nested = {n.name: n for n in ast.walk(f.node) if isinstance(n, ast.FunctionDef) and n is not f.node}
+        out = {}
+        for c in ast.walk(f.node):
+            if isinstance(c, ast.Call) and isinstance(c.func, ast.Name) and len(c.args) == 3 and c.func.id not in out:
+                h = nested.get(c.func.id)
+                if h is None and repo is not None and repo.has_func(f.module, c.func.id):
+                    h = repo.func(f.module, c.func.id).node
+                if h is None or len(h.args.args) != 3:
+                    continue
+                try:
+                    res = tuple(eval_interpolate(h, a, b, t)[1] for (a, b, t) in _weak_orderings(3))
+                except Exception:
+                    continue
+                out[c.func.id] = res
+        return out
+    sa, sb = selectors(fa), selectors(fb)
+    if len(sa) != 1 or len(sb) != 1:
+        return fb
+    (xa, ra), (xb, rb) = next(iter(sa.items())), next(iter(sb.items()))
+    if xa == xb or ra != rb:
+        return fb
+    names_b = {n.id for n in ast.walk(fb.node) if isinstance(n, ast.Name)} | {a.arg for a in ast.walk(fb.node) if isinstance(a, ast.arg)}
+    if xa in names_b:
+        return fb
+    node = copy.deepcopy(fb.node)
+    for n in ast.walk(node):
+        if isinstance(n, ast.FunctionDef) and n is not node and n.name == xb:
+            n.name = xa
+        elif isinstance(n, ast.Name) and n.id == xb:
+            n.id = xa
+    return dataclasses.replace(fb, node=node)
 
 
 def orderings_equal(fa: FuncInfo, fb: FuncInfo) -> Optional[Tuple[bool, int]]:
@@ -428,7 +473,7 @@ class SiblingEngine:
                             if want is None or got != want:
                                 return fn + '!bad-length-arg', args
                     new = [a for k, a in enumerate(args) if k not in drop]
-                    return hp.name, new
+                    return hp.name.split('.')[-1], new          # (a nested helper is called by its own name)
                 return adapt
             adapters[hx.name] = mk()
         return adapters
@@ -500,7 +545,7 @@ class SiblingEngine:
             res['mismatches'] = cmp.mismatches
             res['info'] = cmp.info
             if cmp.mismatches:
-                pe_ = loopfree_paths_equal(pyx, py, ren_py, adapters)
+                pe_ = loopfree_paths_equal(pyx, py, ren_py, adapters, self.repo)
                 if not (pe_ is not None and pe_[0]):
                     pe_ = orderings_equal(pyx, py) or pe_
                 if pe_ is not None and pe_[0]:
@@ -541,7 +586,7 @@ class SiblingEngine:
         except C.CanonError as e:
             res['inconclusive'] = f"{title}: canonicaliser: {e}"
         if res['inconclusive']:
-            pe_ = loopfree_paths_equal(pyx, py, ren_py, adapters)
+            pe_ = loopfree_paths_equal(pyx, py, ren_py, adapters, self.repo)
             if not (pe_ is not None and pe_[0]):
                 pe_ = orderings_equal(pyx, py) or pe_
             if pe_ is not None and pe_[0]:
